@@ -69,12 +69,21 @@ def run(ctx):
             dty = f.locals[t['dest']['l']]['ty']
             if not dty.startswith(('std::result::Result<', 'Result<')):
                 continue
-            if short(p) in ('branch', 'from_residual', 'map_err', 'map'):
+            if short(p) in ('branch', 'from_residual', 'map_err', 'map', 'and_then'):
                 continue
             n += 1
             ctx.touch(f)
             uses = q.local_uses(f, t['dest']['l'])
             verdicts = []
+
+            def cname(y_):
+                # what a consuming call is called — `unwrap_or_else(|e| panic!(..))` is an `expect` with a computed message
+                s_ = short(y_['callee'].get('path') or y_['callee'].get('def') or '')
+                if s_ == 'unwrap_or_else' and len(y_['args']) == 2:
+                    cf_, _ = q.closure_of(b, f.call_expr(y_, 0)[2][1])
+                    if cf_ is not None and not any(cf_.blocks[k_]['term']['t'] == 'return' for k_ in cf_.reach):
+                        return 'expect'
+                return s_
 
             def retry(y_):
                 # `r.or_else(|_| other_attempt())`: the error is replaced by the outcome of another fallible attempt (the
@@ -101,8 +110,8 @@ def run(ctx):
                     if k2 == 'discr':
                         out_.append('match')
                     elif k2 == 'arg':
-                        s2 = short(y['callee'].get('path') or y['callee'].get('def') or '')
-                        if (s2 in ('map', 'map_err') or retry(y)) and not as_option:
+                        s2 = cname(y)
+                        if (s2 in ('map', 'map_err', 'and_then') or retry(y)) and not as_option:
                             out_ += through(y, False, depth + 1)
                         elif s2 == 'ok' and not as_option:
                             out_ += through(y, True, depth + 1)
@@ -114,10 +123,10 @@ def run(ctx):
                         out_.append('returned')
                 return out_ or ['ok' if as_option else 'map']
             for bj, kind, x in uses:
-                if kind == 'arg' and (short(x['callee'].get('path') or x['callee'].get('def') or '') in ('map', 'map_err', 'ok') or retry(x)):
+                if kind == 'arg' and (short(x['callee'].get('path') or x['callee'].get('def') or '') in ('map', 'map_err', 'ok', 'and_then') or retry(x)):
                     verdicts += through(x, short(x['callee'].get('path') or x['callee'].get('def') or '') == 'ok')
                 elif kind == 'arg':
-                    verdicts.append(short(x['callee'].get('path') or x['callee'].get('def') or ''))
+                    verdicts.append(cname(x))
                 elif kind == 'discr':
                     verdicts.append('match')
                 elif kind in ('stmt', 'ref'):
@@ -177,6 +186,24 @@ def run(ctx):
                         if y_[0] == 'var':
                             todo_.extend(strip_refs(v_) for _, _, v_ in q.multi_def_values(af, y_[1]) if strip_refs(v_) != y_)
                 if srcs >= {'json', 'gambit'}:
+                    ok = True
+        if not ok:
+            # `json(..).or_else(|_| gambit(..)).unwrap_or_else(|_| panic!(..))` / `.expect(..)`: the combined Result is
+            # unwrapped by something that diverges on Err
+            for bi, t, e in q.calls_named(af, 'unwrap_or_else') + q.calls_named(af, 'expect') + q.calls_named(af, 'unwrap'):
+                if 'Result' not in e[1] or not e[2]:
+                    continue
+                if short(e[1]) == 'unwrap_or_else':
+                    cf_, _ = q.closure_of(b, e[2][1]) if len(e[2]) > 1 else (None, None)
+                    if cf_ is None or any(cf_.blocks[k_]['term']['t'] == 'return' for k_ in cf_.reach):
+                        continue
+                oe = q.find_sub(e[2][0], lambda s_: q.is_call(s_, 'or_else') and len(s_[2]) == 2)
+                if oe is None:
+                    continue
+                first = {y_[1].split('::')[0] for y_ in facts.walk(oe[2][0]) if y_[0] == 'call' and short(y_[1]) == 'from_str'}
+                cf2, _ = q.closure_of(b, oe[2][1])
+                second = {p_.split('::')[0] for _, _, p_ in cf2.calls() if short(p_) == 'from_str'} if cf2 is not None else set()
+                if first and second and (first | second) >= {'json', 'gambit'}:
                     ok = True
         ctx.verdict(ok, rule, rule + ':auto-chain-diverges', 'the auto-detection chain panics when every parser returned Err', af.where(panics[0]) if panics else af.where(0), 'panic guarded by Err of both attempts: %s' % ok,
                     breaks='unparseable input falls through to some game')
